@@ -159,12 +159,39 @@ def map_list(ip, g, comp, lst):
         items = [eval_elt(ip, g, comp, lst.at(IntVal(j))) for j in range(n)]
         return SList.of(items) if items else SList.empty()
 
-    def at(i, lst=lst):
-        return eval_elt(ip, g, comp, lst.at(i))
-    # evaluate once at a generic index to surface exceptions / unsupported constructs now
+    # symbolic length: the element expression is evaluated ONCE at a generic index k (its side
+    # effects are logged with that context = "performed for every k, in order"); the resulting
+    # list is abstracted to index-parametrised fresh symbols of the same shape
+    st = ip.st
     k = fresh('gk')
-    at(k)
-    return SList(lst.n, at)
+    st.assume(k >= 0, k < lst.n)
+    st.ghost['comp_ctx'] = (lst, k)
+
+    def effects():
+        return (st.oidx, len(st.writes), len(st.memwrites), len(st.mem), len(st.heap),
+                sum(len(x) for x in st.ghost.values() if isinstance(x, list)))
+    e0 = effects()
+    try:
+        v = eval_elt(ip, g, comp, lst.at(k))
+    finally:
+        st.ghost['comp_ctx'] = None
+    if effects() == e0:
+        # pure element expression: the mapped list is exact
+        return SList(lst.n, lambda i, lst=lst: eval_elt(ip, g, comp, lst.at(i)))
+    if ip.is_byteslike(v):
+        vb = ip.bytes_of(v)
+        cid = st.fresh_id('map')
+        flen = Function('maplen_' + cid, I, I)
+        fat = Function('mapat_' + cid, I, I, I)
+        kk, jj = fresh('mk'), fresh('mj')
+        st.hyps.append(ForAll([kk], flen(kk) >= 0, patterns=[flen(kk)]))
+        st.hyps.append(ForAll([kk, jj], And(fat(kk, jj) >= 0, fat(kk, jj) < 256), patterns=[fat(kk, jj)]))
+        # the generic instance is one of them
+        st.assume(flen(k) == vb.n)
+        st.ghost.setdefault('maps', {})[cid] = (lst, k, vb)
+        kind = vb.kind if vb.kind != BYTEARRAY else BYTES
+        return SList(lst.n, lambda i, flen=flen, fat=fat, kind=kind: SBytes(kind, flen(iv(i)), lambda j, i=i: fat(iv(i), iv(j))))
+    raise Unsupported('comprehension over a symbolic-length list with element %r' % (v,))
 
 
 def join_bytes(ip, lst):
